@@ -288,7 +288,7 @@ def run(ctx):
     ctx.log("traces done")
     b_raw = jk.Batch(ctx, "Cases_C03_raw", shard=60)
     b_corr = jk.Batch(ctx, "Cases_C03_corr", shard=30)
-    b_cov = jk.Batch(ctx, "Cases_C03_cov", shard=80)
+    b_cov = jk.Batch(ctx, "Cases_C03_cov", shard=12)
     b_nz = jk.Batch(ctx, "Cases_C03_nz", shard=40)
     b_hist = jk.Batch(ctx, "Cases_C03_hist", shard=80)
     f10b_probe(ctx, b_hist, b_cov)
